@@ -86,6 +86,8 @@ impl SignatureConverter<'_> {
 
         match receiver_generation {
             ReceiverGeneration::Insert => {
+                // (before `&self` comes in, which would attract an elided lifetime of the return type)
+                super::tie_elided_output_to_params(sig);
                 sig.inputs.insert(
                     0,
                     self.gen_first_receiver(
